@@ -222,3 +222,119 @@ func condDominated(in ssa.Instruction, method string, want bool) bool {
 	}
 	return false
 }
+
+// c11PartialKey — C11.R11: (*KeyValue).KeyToString panics for a key that is
+// neither a string nor an identifier. It may be applied to the pairs of a
+// struct constant (keys are field names) or under a test of the key's dynamic
+// type; a call that is reachable for any map constant aborts generation for
+// valid IDL (map<i32, …> constants).
+func c11PartialKey(ctx *core.Ctx, cc *CC) {
+	ctx.Rule("C11.R11", "partial key conversion: KeyToString is called only where the pairs belong to a struct constant or the key's type has been tested", 4)
+	kt := cc.FnOpt("parser", "(*KeyValue).KeyToString")
+	if kt == nil {
+		ctx.Unresolved("C11.R11", "parser.(*KeyValue).KeyToString", "not found")
+		return
+	}
+	// does it panic at all?
+	panics := false
+	ssax.Instrs(kt, func(in ssa.Instruction) {
+		if _, ok := in.(*ssa.Panic); ok {
+			panics = true
+		}
+	})
+	if !panics {
+		ctx.Discharge("C11.R11", QName(kt)+" › total", cc.FPos(kt), "no panic in the conversion")
+		return
+	}
+	isStructVal := func(v ssa.Value) bool { return ssax.TypeNamed(v.Type(), "", "Struct") }
+	for _, fn := range cc.Fns {
+		n := 0
+		for _, c := range ssax.Calls(fn) {
+			if c.Static != kt {
+				continue
+			}
+			n++
+			in := c.Instr.(ssa.Instruction)
+			ok := false
+			how := ""
+			for cur := in.Block(); cur != nil && !ok; cur = cur.Idom() {
+				if len(cur.Preds) == 0 {
+					continue
+				}
+				// every way into this block is the taken edge of a qualifying test
+				// (a multi-type case of a type switch has one test per listed type)
+				all := true
+				var iff *ssa.If
+				for _, p := range cur.Preds {
+					i2, isIf := p.Instrs[len(p.Instrs)-1].(*ssa.If)
+					if !isIf || p.Succs[0] != cur {
+						all = false
+						break
+					}
+					if iff == nil {
+						iff = i2
+					}
+				}
+				if !all || iff == nil {
+					continue
+				}
+				if len(cur.Preds) > 1 {
+					// all of them must qualify: checked below through allQualify
+				}
+				// a condition over a *parser.Struct value (struct found), IsStruct(...), or a type test of a Key
+				var walk func(v ssa.Value, d int) bool
+				walk = func(v ssa.Value, d int) bool {
+					if d > 4 {
+						return false
+					}
+					if isStructVal(v) {
+						how = "a struct was found for the constant's type"
+						return true
+					}
+					switch x := v.(type) {
+					case *ssa.Call:
+						if cc2, isC := ssax.AsCall(x); isC && cc2.ShortName() == "IsStruct" {
+							how = "IsStruct"
+							return true
+						}
+					case *ssa.TypeAssert:
+						switch k := ssax.Strip(x.X).(type) {
+						case *ssa.UnOp:
+							if fa, isFA := k.X.(*ssa.FieldAddr); isFA && fieldName(fa) == "Key" {
+								how = "type test of the key"
+								return true
+							}
+						case *ssa.Field:
+							if st, isSt := k.X.Type().Underlying().(*types.Struct); isSt && st.Field(k.Field).Name() == "Key" {
+								how = "type test of the key"
+								return true
+							}
+						}
+					case *ssa.Extract:
+						return walk(x.Tuple, d+1)
+					}
+					if vi, isI := v.(ssa.Instruction); isI {
+						for _, op := range vi.Operands(nil) {
+							if *op != nil && walk(*op, d+1) {
+								return true
+							}
+						}
+					}
+					return false
+				}
+				allQualify := true
+				for _, p := range cur.Preds {
+					i2 := p.Instrs[len(p.Instrs)-1].(*ssa.If)
+					if !walk(i2.Cond, 0) {
+						allQualify = false
+					}
+				}
+				if allQualify {
+					ok = true
+				}
+			}
+			ctx.Check(ok, "C11.R11", QName(fn)+sprintf(" › KeyToString call #%d is guarded", n), cc.IPos(in), how,
+				"KeyToString is reachable for the pairs of any map constant: a constant of a map type whose keys are numbers (const map<i32,string> M = {1: \"a\"}) makes this generator panic on valid IDL")
+		}
+	}
+}
